@@ -35,7 +35,7 @@ def num? (t : String) : Option Num :=
   match t.splitOn ":" with
   | ["f", h] => (f64? h).map .f64
   | ["f64", h] => (f64? h).map .f64
-  | ["f32", h] => (f64? h).map .f32
+  | ["f32", h] => (f64? h).map .f64      -- a float32 Go value is widened by toValue: the payload is a float64
   | [k, i] => do let k ← ik? k; let i ← int? i; pure (.int k i)
   | _ => none
 
@@ -175,12 +175,6 @@ def devNum (v : Num) (t : NT) : List String :=
   | .int _ _, .f32 => if Spec.sameNumber v (toF32 (Spec.asF64 v)) then [] else ["call_int_to_float_rounds"]
   | .f64 x, .f32 =>
     if overflowFloat32 x then [] else if Spec.sameNumber v (toF32 x) then [] else ["call_f64_to_f32_rounds"]
-  | .f64 _, .i k | .f32 _, .i k =>
-    -- int64(f) is taken first (runtime.go:237), so exact integers in [2^63, 2^64) never reach a uint64/uint parameter
-    if k.signed then [] else
-    match Spec.exactInt? v with
-    | some i => if (2^63 : Int) ≤ i ∧ i ≤ k.hi then ["call_float_ge_2p63_to_uint_rejected"] else []
-    | none => []
   | _, _ => []
 
 def isGoPanic {α} (r : Res α) : Bool := r.isGoPanic
@@ -188,26 +182,13 @@ def isGoPanic {α} (r : Res α) : Bool := r.isGoPanic
 def addDev (ds : List String) (d : String) : List String := if ds.contains d then ds else ds ++ [d]
 def addDevs (ds es : List String) : List String := es.foldl addDev ds
 
-def zeroLike (v : JV) (t : GT) : Bool :=
-  -- does converting `undefined` to the element type give exactly the zero value the code leaves in a hole?
-  match t.base, t.depth with
-  | _, (_+1) => true              -- nil pointer
-  | .any, 0 => true               -- nil interface
-  | .bool, 0 => true              -- false
-  | _, _ => let _ := v; false
-
 mutual
 /-- regions met while converting value v to type t on the call path (syntactic walk, same shape as `conv`) -/
 def devConv (v : JV) (t : GT) : List String :=
-  if t.depth > 0 ∧ t.base.isAny ∧ !v.isNullish then ["call_pointer_to_interface_go_panic"] else
   match t.base with
-  | .any => if isGoPanic (exportV true v) then ["call_interface_mixed_nested_arrays_go_panic"] else []
   | .num nt => (match v with | .num n => devNum n nt | _ => [])
-  | .str => (match v with
-      | .num n => if goFmtV n = jsNumToString n then [] else ["call_number_to_string_gofmt"]
-      | _ => [])
   | .slice tt => (match v with | .arr es => devElems es tt | _ => [])
-  | .map tt => (match v with | .obj ps => devProps ps (fun _ => tt) | .arr es => devElemsNoHole es tt | _ => [])
+  | .map tt => (match v with | .obj ps => devProps ps (fun _ => tt) | .arr es => devElems es tt | _ => [])
   | .struct fs => (match v with
       | .obj ps => devProps ps (fun k => match fieldIndexByName (.struct fs) k with
           | some p => (typeAt (.struct fs) p).getD .any
@@ -217,13 +198,8 @@ def devConv (v : JV) (t : GT) : List String :=
 def devElems (es : JVs) (tt : GT) : List String :=
   match es with
   | .nil => []
-  | .hole r => addDevs (if zeroLike .undef tt then [] else ["call_array_hole_becomes_zero"]) (devElems r tt)
+  | .hole r => devElems r tt
   | .cons v r => addDevs (devConv v tt) (devElems r tt)
-def devElemsNoHole (es : JVs) (tt : GT) : List String :=
-  match es with
-  | .nil => []
-  | .hole r => devElemsNoHole r tt
-  | .cons v r => addDevs (devConv v tt) (devElemsNoHole r tt)
 def devProps (ps : JPs) (ft : Str → GT) : List String :=
   match ps with
   | .nil => []
@@ -233,57 +209,30 @@ end
 /-- does the store path take the number through float64 (toIntegerFloat / Value.float64) for this
     payload kind `pk` and target kind `k`? (value.go:763-830, value_number.go:144) -/
 def viaFloat (pk k : IK) : Bool :=
-  (match k with | .int | .i64 | .uint | .u64 => true | _ => false) ||
-  (match pk with | .i32 | .u64 | .uint => true | _ => false)
-
-/-- a float64 that did not make the store path fail, going into an integer kind -/
-def devStoreFloatToInt (k : IK) (x : FV) : List String :=
-  if isNaN x then ["store_nan_becomes_zero"]
-  else match x with
-    | .fin true m e => if !isIntegral m e then ["store_negative_fraction_truncates"] else []
-    | .fin false m e =>
-      let a : Int := truncAbs m e
-      if (a = 2^63 ∧ (k = .int ∨ k = .i64)) ∨ (a = 2^64 ∧ (k = .uint ∨ k = .u64)) then ["store_2p63_wraps"] else []
-    | _ => []
+  let _ := pk
+  (match k with | .int | .i64 | .uint | .u64 => true | _ => false)
 
 def isOk {α} : Res α → Bool | .ok _ => true | _ => false
 
-/-- regions of the store path (Value.toReflectValue, used by slice/array/map writes) – predicates on (v, t).
-    Since fix bb377a4 a failed conversion is a RangeError visible to the script (the former region
-    `store_error_is_go_panic` is gone); what remains are silent changes of value, rejections of representable
-    values, and the two genuine Go panics. -/
+/-- regions of the store path (Value.toReflectValue, used by slice/array/map writes) – predicates on (v, t):
+    ToNumber coercion of non-numbers, silent rounding into float kinds, integer payloads taken through float64,
+    and the Go panic of Value.float64 on a float32 payload. -/
 def devStore (v : JV) (t : GT) : List String :=
   match t with
   | .num nt =>
     (match v with
      | .arr _ | .obj _ => []
      | .undef | .null | .bool _ | .str _ => ["store_coerces_non_number"]      -- ToNumber coercion instead of TypeError
-     | .num (.f32 x) =>
-       -- the fraction guard (value.go:746) answers first for integer kinds; otherwise Value.float64 has no float32 case
-       (match nt with
-        | .i _ => if fracPositive x then [] else ["store_float32_value_go_panic"]
-        | _ => ["store_float32_value_go_panic"])
+     | .num (.f32 _) => []                 -- not reachable: a Value never carries a float32 payload
      | .num n =>
-       if !isOk (toReflectValue v t) then
-         -- the store is rejected with RangeError; the only representable value that is rejected is ±Inf → float32
-         (match nt, n with
-          | .f32, .f64 x => if isInf x then ["store_inf_to_f32_rejected"] else []
-          | _, _ => [])
-       else match nt, n with
+       (match nt, n with
          | .f64, .int _ i => if Spec.sameNumber n (ofInt i) then [] else ["store_float_rounds"]
-         | .f32, _ => if Spec.sameNumber n (toF32 (Spec.asF64 n)) then [] else ["store_float_rounds"]
-         | .i k, .f64 x => devStoreFloatToInt k x
+         | .f32, _ =>
+           if !isOk (toReflectValue v t) then [] else
+           if Spec.sameNumber n (toF32 (Spec.asF64 n)) then [] else ["store_float_rounds"]
          | .i k, .int pk i =>
-           if viaFloat pk k then
-             (if Spec.sameNumber n (ofInt i) then devStoreFloatToInt k (ofInt i) else ["store_int_via_float_rounds"])
-           else []
-         | _, _ => [])
-  | .any => (match v with | .undef | .null => ["store_nil_into_interface_go_panic"] | _ => [])
-  | .bool | .str =>
-    -- the fraction guard (value.go:746) runs for every non-float target kind, also bool and string
-    (match v with
-     | .num (.f32 x) | .num (.f64 x) => if fracPositive x then ["store_fraction_guard_rejects_bool_string"] else []
-     | _ => [])
+           if viaFloat pk k ∧ ¬ Spec.sameNumber n (ofInt i) then ["store_int_via_float_rounds"] else []
+         | _, _ => []))
   | _ => []
 
 def devOut (ds : List String) : String := if ds.isEmpty then "-" else ",".intercalate ds
@@ -311,6 +260,7 @@ def sop? (et : GT) (s : String) : Option SOp :=
   | "jw" :: i :: rest => do let i ← nat? i; let v ← jv? (":".intercalate rest); pure (.jsWrite i v)
   | ["jl"] => some .jsLen
   | ["jsl", n] => (nat? n).map .jsSetLen
+  | ["jslneg"] => some .jsSetLenNeg
   | ["jd", i] => (nat? i).map .jsDelete
   | ["gr", i] => (nat? i).map .goRead
   | ["gw", i, n] => do let i ← nat? i; let n ← int? n; pure (.goWrite i (goElem et n))
@@ -341,20 +291,9 @@ def sliceOut (r : SliceSt × List Obs) : String :=
   ";".intercalate (os.map obsOut) ++
     (if failed then "" else ";G" ++ gvOut (.slice (listGVs (s.view s.go))) ++ ";J" ++ gvOut (.slice (listGVs (s.view s.js))))
 
-/-- regions a slice history may touch: store regions of every write, and the SetLen panic when the model hits it -/
+/-- regions a slice history may touch: the store regions of every write -/
 def devSlice (st : SliceSt) (ops : List SOp) : List String :=
-  let writes := ops.foldl (fun acc op => match op with | .jsWrite _ v => addDevs acc (devStore v st.et) | _ => acc) []
-  let rec go (s : SliceSt) (ops : List SOp) (fuel : Nat) : Bool :=
-    match fuel, ops with
-    | 0, _ => false
-    | _, [] => false
-    | f+1, op :: rest =>
-      match op with
-      | .jsSetLen n => if n ≠ s.js.len ∧ n < s.js.cap then true else go (sliceStep Spec.store s op).1 rest f
-      | _ =>
-        let r := sliceStep Spec.store s op
-        if r.2.isFail then false else go r.1 rest f
-  if go st ops (ops.length + 1) then addDev writes "slice_setlen_unaddressable_go_panic" else writes
+  ops.foldl (fun acc op => match op with | .jsWrite _ v => addDevs acc (devStore v st.et) | _ => acc) []
 
 def mop? (et : GT) (s : String) : Option MOp :=
   match s.splitOn ":" with
